@@ -44,17 +44,46 @@ def variants(obs: pd.Series, rng):
     return out
 
 
-def compare(ref, other, name, fam, res, extra):
+def compare(ref, other, name, fam, res, extra, variant_series=None):
     """predictions equal wherever both are produced"""
     a, b = ref["predicted"], other["predicted"]
     common = a.index.intersection(b.index)
     av, bv = a.loc[common].to_numpy(dtype=float), b.loc[common].to_numpy(dtype=float)
     both = np.isfinite(av) & np.isfinite(bv)
     res["evaluations"] += 1
+    if (len(common) != len(a.index) or len(common) != len(b.index)) and fam == "daily" and variant_series is not None and len(variant_series):
+        vs = variant_series
+        if pd.isna(vs.iloc[0]) or pd.isna(vs.iloc[-1]):
+            extra_rows = a.index.symmetric_difference(b.index)
+            edges = set(list(a.index[:1]) + list(a.index[-2:]))
+            if len(extra_rows) <= 2 and set(extra_rows) <= edges:
+                d = res["finding_instances"].setdefault("C05-F1", dict(count=0, example=None))
+                d["count"] += 1
+                if d["example"] is None:
+                    d["example"] = dict(family=fam, variant=name, rows_ref=len(a), rows_variant=len(b), rows_only_in_one=[str(x) for x in extra_rows], **extra)
+                return
     if len(common) != len(a.index) or len(common) != len(b.index):
         res["oracle_failures"].append(dict(clause="prediction_rows_depend_on_observed", family=fam, variant=name, rows_ref=len(a), rows_variant=len(b), **extra))
         return
     diff = np.nonzero(both & (av != bv))[0]
+    if len(diff) and fam == "daily" and variant_series is not None and len(variant_series):
+        # C05-F1: from_series trims the temperature to the span of VALID usage, so when the first / last usage readings of a
+        # sub-daily series are NaN the first / last day's mean temperature (and prediction) is taken over fewer hours
+        vs = variant_series
+        edge_nan_first, edge_nan_last = bool(pd.isna(vs.iloc[0])), bool(pd.isna(vs.iloc[-1]))
+        edge_rows = set()
+        if edge_nan_first:
+            edge_rows.add(0)
+        if edge_nan_last:
+            edge_rows.update({len(common) - 1, len(common) - 2})
+        if edge_rows and set(int(i) for i in diff) <= edge_rows:
+            d = res["finding_instances"].setdefault("C05-F1", dict(count=0, example=None))
+            d["count"] += 1
+            if d["example"] is None:
+                i = int(diff[0])
+                d["example"] = dict(family=fam, variant=name, stamp=str(common[i]), reference=float(av[i]), with_variant=float(bv[i]),
+                                    leading_nan=edge_nan_first, trailing_nan=edge_nan_last, **extra)
+            return
     if len(diff):
         i = int(diff[0])
         res["oracle_failures"].append(dict(clause="prediction_depends_on_observed", family=fam, variant=name, stamp=str(common[i]),
@@ -103,7 +132,13 @@ def run(ctx):
         combo = rng.choice(["fw-su_sh_wi", "fw-sh_wi__wd-su__we-su"])
         dm = DailyModel.from_dict(shaped_doc(combo, dsettings))
         outs = {}
-        for name, v in variants(obs, rng).items():
+        vseries = variants(obs, rng)
+        # always exercise the edge: a variant whose first three and last two usage readings are missing
+        edge = obs.copy()
+        edge.iloc[:3] = np.nan
+        edge.iloc[-2:] = np.nan
+        vseries["edge_nan"] = edge
+        for name, v in vseries.items():
             try:
                 rd = DailyReportingData.from_series(None if v is None else v.copy(), temp.copy(), is_electricity_data=True)
                 outs[name] = dm.predict(rd)
@@ -111,7 +146,7 @@ def run(ctx):
                 res["hist"][f"daily_variant_failed:{name}:{type(e).__name__}"] = res["hist"].get(f"daily_variant_failed:{name}:{type(e).__name__}", 0) + 1
         for name, o in outs.items():
             if name != "absent" and "absent" in outs:
-                compare(outs["absent"], o, name, "daily", res, dict(start=start, days=days))
+                compare(outs["absent"], o, name, "daily", res, dict(start=start, days=days), variant_series=vseries.get(name))
             sigs.add(("daily", name))
         # billing: reads every ~30 days
         reads = pd.date_range(idx[0], idx[-1], freq="30D")
@@ -224,7 +259,16 @@ def run(ctx):
 
 
 def replay_finding(entry):
-    return False
+    """C05-F1 witness: leading NaN usage readings change the first day's temperature of DailyReportingData.from_series"""
+    from opendsm.eemeter.models.daily.data import DailyReportingData
+    w = entry["witness"]
+    idx = pd.date_range(pd.Timestamp(w["start"], tz=w["tz"]), periods=24 * w["days"], freq="h")
+    temp = pd.Series(55 + 22 * np.sin(np.arange(len(idx)) / 8760 * 6.283 - 2) + 5 * np.sin(np.arange(len(idx)) / 24 * 6.283), index=idx, name="temperature")
+    obs = pd.Series(1.0 + np.abs(np.sin(np.arange(len(idx)) / 24.0)), index=idx, name="observed")
+    obs.iloc[: w["leading_nan_readings"]] = np.nan
+    a = DailyReportingData.from_series(None, temp.copy(), is_electricity_data=True).df["temperature"].iloc[0]
+    b = DailyReportingData.from_series(obs, temp.copy(), is_electricity_data=True).df["temperature"].iloc[0]
+    return bool(a != b)
 
 
 def replay(obj):
